@@ -222,6 +222,7 @@ def run(ctx: Ctx):
     run_loop_batches(ctx)
     run_field_coords(ctx)
     run_latent_key_order(ctx)
+    run_loop_nan_batches(ctx)
 
 
 def run_nan_batches(ctx: Ctx):
@@ -287,6 +288,40 @@ def run_loop_batches(ctx: Ctx):
                     a, b = float(np.ravel(y[k])[j]), float(np.ravel(ys[k])[0])
                     if not ((a != a and b != b) or abs(a - b) <= 1e-9 * (1 + abs(b))):
                         ctx.violate('C10:batch-vs-single', f'feedback system, sample {j} of {k}: {a} in the batch, {b} alone (iteration limit {maxit})',
+                                    {**case, 'sample': j}); break
+        except Exception as e:
+            ctx.violate('C10:predict-raises', f'{type(e).__name__}: {e}', case)
+
+
+def run_loop_nan_batches(ctx: Ctx):
+    """a feedback loop in which one sample's iterate turns NaN DURING the iteration (square root of a value that drifts negative): the
+    other samples of the batch are what they are alone"""
+    from amisc import Component, System, Variable
+    rng = ctx.rng
+    for n in range(ctx.pick(5, 30)):
+        g = rng.choice([0.4, 0.5, 0.9])
+        xx = Variable('xx', domain=(0, 1)); v0 = Variable('v0', domain=(-3.0, 3.0)); v1 = Variable('v1', domain=(-3.0, 3.0))
+
+        def m0(inputs):
+            with np.errstate(invalid='ignore'):
+                return {'v0': np.sqrt(np.asarray(inputs['xx'], dtype=float) - np.asarray(inputs['v1'], dtype=float))}
+
+        def m1(inputs, _g=g):
+            return {'v1': _g * np.asarray(inputs['v0'], dtype=float) + 0.2}
+        system = System(Component(m0, [xx, v1], [v0], name='m0', vectorized=True), Component(m1, [v0], [v1], name='m1', vectorized=True), name=f'ln{n}')
+        N = rng.randint(2, 5)
+        xs = np.array([round(0.55 + 0.4 * rng.random(), 4) for _ in range(N)])
+        bad = rng.randrange(N); xs[bad] = round(0.05 + 0.2 * rng.random(), 4)
+        case = {'loop_nan_batch': n, 'gain': g, 'xx': xs.tolist(), 'sample_that_turns_nan': bad}
+        ctx.case(case, nontrivial=True, kind='loop-nan-batch')
+        try:
+            y = system.predict({'xx': xs}, use_model='best', max_fpi_iter=80)
+            for j in range(N):
+                ys = system.predict({'xx': xs[j:j + 1]}, use_model='best', max_fpi_iter=80)
+                for k in y:
+                    a, b = float(np.ravel(y[k])[j]), float(np.ravel(ys[k])[0])
+                    if not ((a != a and b != b) or abs(a - b) <= 1e-9 * (1 + abs(b))):
+                        ctx.violate('C10:batch-vs-single', f'feedback system with a sample turning NaN: sample {j} of {k}: {a} in the batch, {b} alone',
                                     {**case, 'sample': j}); break
         except Exception as e:
             ctx.violate('C10:predict-raises', f'{type(e).__name__}: {e}', case)
